@@ -309,14 +309,10 @@ func c10PartialTimes(c *core.Ctx, idx int) {
 		}
 		if r.IntN(2) == 0 {
 			entry := framed(framed(nil, 1, []byte("k")), 2, tb)
-			if cfg.ProtoArrays {
-				data = framed(data, 5, entry)
-			} else {
-				data = uv(data, 5<<3|3)
-				data = uv(data, 1)
-				data = uv(data, uint64(len(entry)))
-				data = append(data, entry...)
-			}
+			data = uv(data, 5<<3|3)
+			data = uv(data, 1)
+			data = uv(data, uint64(len(entry)))
+			data = append(data, entry...)
 			where = append(where, "M[k]")
 		}
 		data = append(data, 0x30, 0x02)
